@@ -123,7 +123,8 @@ def mono_key(m):
 
 
 class Translator:
-    def __init__(self):
+    def __init__(self, inputs_first=False):
+        self.inputs_first = inputs_first
         self.index = {}        # z3 const id -> var index (creation order = z3 ast id order of the constant)
         self.consts = []
         self.by_rank = {}
@@ -140,6 +141,8 @@ class Translator:
             r = int(name.rsplit('!', 1)[1]) + 1
             while r in self.by_rank:          # (never expected: counters are unique per engine)
                 r += 1000003
+        elif self.inputs_first:
+            r = 10 ** 9 + len(self.consts)       # second order: harness inputs are eliminated in favour of the decomposition outputs
         else:
             r = -(len(self.consts) + 1)
         self.index[i] = r
@@ -229,8 +232,8 @@ def _clear(p):
 
 class Reducer:
     """rewrite system built from the equality assumptions of one path (rebuilt lazily when assumptions were added)"""
-    def __init__(self):
-        self.tr = Translator()
+    def __init__(self, inputs_first=False):
+        self.tr = Translator(inputs_first)
         self.nseen = 0
         self.rules = []          # (lead monomial, lead coeff, poly, z3 term a - b)
         self.zeros = set()
@@ -461,9 +464,19 @@ def certify(red, gp, rem, quot, blowup=10 ** 8):
 
 def prove_zero(engine, goal_terms, blowup=10 ** 8):
     """goal_terms: list of z3 Real terms that must be 0 on this path.  Returns the number proved (all or nothing -> bool)."""
-    red = getattr(engine, '_ideal', None)
+    # two elimination orders: (1) outputs of later decompositions first (goal expressed in outputs, to be reduced to inputs: U S V -> A),
+    # (2) harness inputs first (goal expressed in inputs, to be reduced to outputs and closed by the orthogonality relations: A -> Q R)
+    r = _prove_with(engine, '_ideal', False, goal_terms, blowup)
+    if r is False:
+        r = _prove_with(engine, '_ideal_in', True, goal_terms, blowup)
+    return r
+
+
+def _prove_with(engine, attr, inputs_first, goal_terms, blowup):
+    red = getattr(engine, attr, None)
     if red is None:
-        red = engine._ideal = Reducer()
+        red = Reducer(inputs_first)
+        setattr(engine, attr, red)
     red.update(engine.constraints)
     if not red.rules:
         return False
